@@ -126,6 +126,27 @@ def judge_all(run, evs, part):
         run.traces_validated += 1
 
 
+def many_cells(run):
+    """workbooks with 21..40 suspicious cells over both sheets (every cell of the 4 x 5 grids): all of them must be listed"""
+    frags = ['eval({})', 'os.system("{}")', 'f{}()', '=A1+len("{}")', 'x=g({})']
+    recs = []
+    for total in (21, 27, 40):
+        gate, n = [], 0
+        for s_ in (1, 2):
+            for r in range(1, 6):
+                for c in range(1, 5):
+                    if n < total:
+                        gate.append({'s': s_, 'c': c, 'r': r, 't': [ord(ch) for ch in frags[n % len(frags)].format(n)], 'j': {}})
+                        n += 1
+        recs.append({'gate': gate})
+    a, b = _job((9000, recs, run.scratch, False)), _job((9001, recs[:1], run.scratch, True))
+    for o in (a, b):
+        if isinstance(o, dict):
+            raise core.MachineryError(o['harness_error'])
+    evs = a + b
+    judge_all(run, evs, 'many_cells')
+
+
 def check(run):
     run.rule = ('placements of 1..2 fragments out of 11 (python-like calls, upper-case Excel calls, mixed case, innocent texts, formulas) on a 4x5 grid of two sheets '
                 'enumerated by TLC with the gate specification\'s verdict; each written to a real xlsx file, the gate exercised enabled and disabled (Excel.parse + '
@@ -153,6 +174,7 @@ def check(run):
             raise core.MachineryError(o['harness_error'])
         evs += o
     judge_all(run, evs, 'parser')
+    many_cells(run)
 
 
 def replay(run, case):
